@@ -999,9 +999,15 @@ func (runInfo *runInfoStruct) runChanStmt(stmt *ast.ChanStmt) {
 		runInfo.expr = stmt.OkExpr
 		runInfo.invokeLetExpr()
 		// TODO: ok to ignore error?
-		if runInfo.err == ErrInterrupt {
-			// (not an interruption: nothing may swallow that one)
-			return
+		if runInfo.err != nil {
+			// (not an interruption, however it is wrapped: nothing may swallow that one)
+			select {
+			case <-runInfo.ctx.Done():
+				runInfo.err = ErrInterrupt
+				runInfo.rv = nilValue
+				return
+			default:
+			}
 		}
 	}
 
